@@ -250,12 +250,14 @@ type c06Spec struct {
 	// LockTail is appended to the locking script behind everything else: a
 	// top-level OP_RETURN followed by 0, 1, 2 or more raw bytes (after Genesis
 	// the script ends there; the bytes still belong to the script code)
-	LockTail       []byte
+	LockTail []byte
 	// LockHead is executed in front of everything else in the locking script:
 	// data pushes consumed by an opcode and dropped again (the pushes are part
 	// of the script code; an opcode working in place on its operand would
 	// rewrite them under the signature check that follows)
 	LockHead []byte
+	// BigOut: the spending transaction additionally carries a data output of this many non-repeating bytes
+	BigOut         int
 	UnlockCheck    bool
 	UnlockCheckHT  byte
 	UnlockCheckPad int
@@ -390,6 +392,9 @@ func c06Make(r *prng.R, sp *c06Spec) *c06Case {
 	shape := gen.RandShape(r, gen.ShapeOpts{MinIns: 1, MaxIns: 4, MaxOuts: 4})
 	if r.Chance(1, 2) {
 		shape.Version = prng.Pick(r, []uint32{1, 2})
+	}
+	if sp.BigOut > 0 {
+		shape.Outs = append(shape.Outs, gen.Out{Sats: uint64(r.Intn(1000)), Script: append([]byte{0x00, 0x6a}, r.Bytes(sp.BigOut-2)...)})
 	}
 	cs.Tx = *shape
 	cs.Idx = r.Intn(len(shape.Ins))
@@ -677,6 +682,9 @@ func init() {
 									}
 									if sp.LockTail == nil && k%3 == 1 { // data pushes in a wider form than necessary behind the check: the script code is hashed as it is written
 										sp.LockTail = [][]byte{{0x4c, 0x01, 0x07, 0x75}, {0x4d, 0x02, 0x00, 0xaa, 0xbb, 0x75}, {0x4e, 0x01, 0x00, 0x00, 0x00, 0x09, 0x75}, {0x4c, 0x00, 0x75}, {0x01, 0x05, 0x75}, {0x4c, 0x03, 0x01, 0x02, 0x03, 0x4d, 0x01, 0x00, 0x51, 0x6d}}[(k/3+sepPos+7)%6]
+									}
+									if k%6 == 4 && cl != "non-der" {
+										sp.BigOut = []int{16385, 20000, 40000}[(sepPos+8)%3]
 									}
 									if k%3 == 2 {
 										sp.LockHead = c06Heads[(k/3+sepPos+len(cl)+len(ke))%len(c06Heads)]
